@@ -29,13 +29,13 @@ pub enum Source {
     /// in the input syntax or as the library itself prints the parsed condition; f is the whole condition of a, the
     /// atom X the whole condition of b (in both fact orders), neg(a) the condition of X
     Spelled,
-    /// three statements whose conditions are written literally as one of 12 short formulas (atoms, negated atoms,
-    /// constants, and / or / imp of two atoms): all 12^3 combinations - the writers of the other families never write a
+    /// three statements whose conditions are written literally as one of 15 short formulas (atoms, negated atoms,
+    /// constants, and / or / imp of two atoms, chains of 3-5 negations): all 15^3 combinations - the writers of the other families never write a
     /// bare atom or a bare negation
     Literal3,
 }
 
-pub const LITERALS: usize = 12;
+pub const LITERALS: usize = 15;
 
 fn literal(k: usize) -> Fm {
     let a = Fm::Atom;
@@ -51,7 +51,11 @@ fn literal(k: usize) -> Fm {
         8 => Fm::bin(0, a(0), a(1)),
         9 => Fm::bin(1, a(1), a(2)),
         10 => Fm::bin(2, Fm::not(a(0)), Fm::not(a(2))),
-        _ => Fm::bin(0, a(0), Fm::not(a(0))),
+        11 => Fm::bin(0, a(0), Fm::not(a(0))),
+        // a connective applied to its own result: chains of three, four and five negations
+        12 => Fm::not(Fm::not(Fm::not(a(1)))),
+        13 => Fm::not(Fm::not(Fm::not(Fm::not(a(2))))),
+        _ => Fm::not(Fm::not(Fm::not(Fm::not(Fm::not(a(0)))))),
     }
 }
 
@@ -127,7 +131,7 @@ impl Source {
             }
             Source::Sparse(_, count) => format!("SP: {} large sparse ADFs (70/130/270 statements, open ring at positions beyond 63 / 255)", count),
             Source::Spelled => "labels that spell a formula of the same ADF (input syntax and the library's own rendering)".to_string(),
-            Source::Literal3 => "Lit(3): three statements x 12 literally written short conditions".to_string(),
+            Source::Literal3 => "Lit(3): three statements x 15 literally written short conditions".to_string(),
             Source::Ring(n, first, step) => {
                 if *step == 1 {
                     format!("R({}): all ring ADFs with {} statements", n, n)
